@@ -14,6 +14,10 @@ package main
 // reply field corrupted (bit flip / fresh random / the other nonce / zero), no matching
 // fingerprint, a bad SHA-1 prefix or length of the encrypted answer, a wrong new_nonce_hash1, an
 // alternative constructor, an rpc_error. The replies are data of the operation, so a replay is exact.
+// Further: an echoed nonce / server_nonce / new_nonce_hash1 that differs from the right value only in WHERE its zero
+// bytes are (c07GenZeroMoves: 00||X echoed as X||00 and the like, at every reply field that echoes one), and
+// fingerprint lists made of near misses of the client's key - same modulus other exponent, same exponent other
+// modulus, the own fingerprint mangled (c07GenNearMisses) - for client keys with public exponents of 1 to 4 bytes.
 //
 // Several exchanges of one process in ONE operation:
 //
@@ -197,10 +201,213 @@ type c07Base struct {
 }
 
 func c07NewBase(r *Rand, key *rsa.PrivateKey) *c07Base {
+	return c07NewBaseWith(r, key, nil)
+}
+
+// c07NewBaseWith: the same, the draws / secrets adjusted by prep before the conformant replies are computed
+func c07NewBaseWith(r *Rand, key *rsa.PrivateKey, prep func(c *hsCase)) *c07Base {
 	c := hsRandomCase(r, key)
 	c.S.LaterFps = nil
+	if prep != nil {
+		prep(c)
+	}
 	gB := new(big.Int).Exp(big.NewInt(int64(c.S.G)), new(big.Int).SetBytes(c.D.B), c.S.DhPrime)
 	return &c07Base{c: c, gB: gB, h: hsHonest(&c.S, c.D.Nonce, c.D.NewNonce, gB)}
+}
+
+// ---- values that differ only in WHERE their zero bytes are ------------------------------------------------
+//
+// A nonce is a 128-bit string. Code that handles it as a number (big.Int) and goes back to bytes loses the leading
+// zero bytes; code that then restores the width on the wrong side, or compares what is left, takes 00||X for X||00.
+// c07ZeroMoves: the right value has `lead` zero bytes in front and `trail` at the end (non-zero next to them); the
+// echoed value is the right one rotated by `shift` bytes (negative: to the left) - a rotation that moves zero bytes
+// only, so both have the same non-zero bytes in the same order, and they are different 128-bit strings.
+var c07ZeroMoves = []struct {
+	name        string
+	lead, trail int
+	shift       int
+}{
+	{"lead1-left1", 1, 0, -1},
+	{"lead2-left2", 2, 0, -2},
+	{"lead2-left1", 2, 0, -1},
+	{"lead3-left3", 3, 0, -3},
+	{"trail1-right1", 0, 1, 1},
+	{"trail2-right2", 0, 2, 2},
+	{"lead1trail1-left1", 1, 1, -1},
+	{"lead1trail1-right1", 1, 1, 1},
+}
+
+// c07ZeroShape: n bytes with exactly lead leading and trail trailing zero bytes
+func c07ZeroShape(r *Rand, n, lead, trail int) []byte {
+	b := r.Bytes(n)
+	for i := 0; i < lead; i++ {
+		b[i] = 0
+	}
+	for i := 0; i < trail; i++ {
+		b[n-1-i] = 0
+	}
+	if b[lead] == 0 {
+		b[lead] = byte(1 + r.Intn(255))
+	}
+	if b[n-1-trail] == 0 {
+		b[n-1-trail] = byte(1 + r.Intn(255))
+	}
+	return b
+}
+
+// c07Rotate: v rotated by k bytes (k < 0: to the left)
+func c07Rotate(v []byte, k int) []byte {
+	n := len(v)
+	out := make([]byte, n)
+	for i := range v {
+		out[((i+k)%n+n)%n] = v[i]
+	}
+	return out
+}
+
+// c07ForceHash: the server's DH secret counted upwards until new_nonce_hash1 has the shape (lead, trail <= 1)
+func c07ForceHash(c *hsCase, lead, trail int) bool {
+	P := c.S.DhPrime
+	gB := new(big.Int).Exp(big.NewInt(int64(c.S.G)), new(big.Int).SetBytes(c.D.B), P)
+	x := new(big.Int).Exp(gB, c.S.A, P)
+	for i := 0; i < 1<<20; i++ {
+		h := hsNonceHash(c.D.NewNonce, 1, hsFixed(x, 256))
+		if (h[0] == 0) == (lead > 0) && (h[15] == 0) == (trail > 0) && h[1] != 0 && h[14] != 0 {
+			return true
+		}
+		c.S.A.Add(c.S.A, big.NewInt(1))
+		x.Mul(x, gB).Mod(x, P)
+	}
+	return false
+}
+
+// c07GenZeroMoves: every reply field that echoes a nonce (the seven nonce / server_nonce checks) and the hash of the
+// last reply, echoed with its zero bytes moved. The server chooses server_nonce; the client's nonce is a draw of the
+// operation (the harness delivers the client's randomness), so both can be given the shape.
+func c07GenZeroMoves(g *G, r *Rand) {
+	intB := func(x *big.Int, s *hsSecrets) []byte { return hsIntBytes(x, s.Minimal) }
+	for _, mv := range c07ZeroMoves {
+		mv := mv
+		onNonce := func() *c07Base {
+			return c07NewBaseWith(r, c07NextKey(), func(c *hsCase) { c.D.Nonce = c07ZeroShape(r, 16, mv.lead, mv.trail) })
+		}
+		onServerNonce := func() *c07Base {
+			return c07NewBaseWith(r, c07NextKey(), func(c *hsCase) { c.S.ServerNonce = c07ZeroShape(r, 16, mv.lead, mv.trail) })
+		}
+		kind := ":zeros-" + mv.name
+		rot := func(v []byte) []byte { return c07Rotate(v, mv.shift) }
+
+		b := onNonce()
+		s, d := &b.c.S, &b.c.D
+		rr := b.h.R
+		rr[0] = hsResPQ(rot(d.Nonce), s.ServerNonce, s.pqBytes(), append(append([]uint64{}, s.ExtraFps...), b.h.Fingerprint))
+		b.emit(g, "resPQ.nonce"+kind, rr, "resPQ", "field:nonce", "zero-bytes-moved")
+
+		b = onNonce()
+		s, d = &b.c.S, &b.c.D
+		rr = b.h.R
+		rr[1] = hsDHOk(rot(d.Nonce), s.ServerNonce, b.h.EncAnswer)
+		b.emit(g, "dhOk.nonce"+kind, rr, "dhOk", "field:nonce", "zero-bytes-moved")
+
+		b = onServerNonce()
+		s, d = &b.c.S, &b.c.D
+		rr = b.h.R
+		rr[1] = hsDHOk(d.Nonce, rot(s.ServerNonce), b.h.EncAnswer)
+		b.emit(g, "dhOk.server_nonce"+kind, rr, "dhOk", "field:server_nonce", "zero-bytes-moved")
+
+		b = onNonce()
+		s, d = &b.c.S, &b.c.D
+		rr = b.h.R
+		rr[1] = b.rewrap(hsInnerData(rot(d.Nonce), s.ServerNonce, s.G, intB(s.DhPrime, s), intB(s.gA(), s), s.ServerTime))
+		b.emit(g, "inner.nonce"+kind, rr, "inner", "field:nonce", "zero-bytes-moved")
+
+		b = onServerNonce()
+		s, d = &b.c.S, &b.c.D
+		rr = b.h.R
+		rr[1] = b.rewrap(hsInnerData(d.Nonce, rot(s.ServerNonce), s.G, intB(s.DhPrime, s), intB(s.gA(), s), s.ServerTime))
+		b.emit(g, "inner.server_nonce"+kind, rr, "inner", "field:server_nonce", "zero-bytes-moved")
+
+		b = onNonce()
+		s, d = &b.c.S, &b.c.D
+		rr = b.h.R
+		rr[2] = hsTriple(hsIDDHGenOk, rot(d.Nonce), s.ServerNonce, b.h.NonceHash1)
+		b.emit(g, "dhGen.nonce"+kind, rr, "dhGen", "field:nonce", "zero-bytes-moved")
+
+		b = onServerNonce()
+		s, d = &b.c.S, &b.c.D
+		rr = b.h.R
+		rr[2] = hsTriple(hsIDDHGenOk, d.Nonce, rot(s.ServerNonce), b.h.NonceHash1)
+		b.emit(g, "dhGen.server_nonce"+kind, rr, "dhGen", "field:server_nonce", "zero-bytes-moved")
+
+		if mv.lead+mv.trail == 1 {
+			forced := true
+			b = c07NewBaseWith(r, c07NextKey(), func(c *hsCase) { forced = c07ForceHash(c, mv.lead, mv.trail) })
+			if !forced {
+				g.Extra["hash-shape-not-forced:"+mv.name] = true
+				continue
+			}
+			s, d = &b.c.S, &b.c.D
+			rr = b.h.R
+			rr[2] = hsTriple(hsIDDHGenOk, d.Nonce, s.ServerNonce, rot(b.h.NonceHash1))
+			b.emit(g, "dhGen.new_nonce_hash1"+kind, rr, "dhGen", "field:new_nonce_hash1", "zero-bytes-moved")
+		}
+	}
+}
+
+// ---- near misses of the client's key in the fingerprint list ------------------------------------------------
+
+// c07OtherExponents: public exponents other than e: the usual ones, the neighbours of e, e with its bytes shifted
+func c07OtherExponents(e int) []int {
+	var out []int
+	seen := map[int]bool{e: true}
+	for _, x := range []int{3, 5, 17, 257, 65537, 65539, e + 2, e - 2, e ^ 1<<16, e << 8, e >> 8, e | 1<<24, e & 0xffff} {
+		if x > 1 && !seen[x] {
+			seen[x] = true
+			out = append(out, x)
+		}
+	}
+	return out
+}
+
+// c07NearMisses: three fingerprint lists, none of which holds the fingerprint of `key`: the keys with the same modulus
+// and another exponent; the other moduli of the pool with this key's exponent; this key's fingerprint mangled (bytes
+// reversed, sign bit flipped, negated, one half only, shifted by a byte, off by one)
+func c07NearMisses(key *rsa.PrivateKey) map[string][]uint64 {
+	own := hsFingerprint(&key.PublicKey)
+	m := map[string][]uint64{}
+	for _, e := range c07OtherExponents(key.E) {
+		m["same-modulus-other-exponent"] = append(m["same-modulus-other-exponent"], hsFingerprint(&rsa.PublicKey{N: key.N, E: e}))
+	}
+	for _, k := range c07Pool {
+		if k.N.Cmp(key.N) != 0 {
+			m["same-exponent-other-modulus"] = append(m["same-exponent-other-modulus"], hsFingerprint(&rsa.PublicKey{N: k.N, E: key.E}))
+		}
+	}
+	for _, f := range []uint64{bits.ReverseBytes64(own), own ^ 1<<63, -own, own & 0xffffffff, own >> 32, own << 32, own << 8, own >> 8, own + 1, own - 1, ^own, bits.RotateLeft64(own, 32)} {
+		if f != own {
+			m["own-fingerprint-mangled"] = append(m["own-fingerprint-mangled"], f)
+		}
+	}
+	return m
+}
+
+var c07NearMissKinds = []string{"same-modulus-other-exponent", "same-exponent-other-modulus", "own-fingerprint-mangled"}
+
+// c07GenNearMisses: for EVERY key of the pool as the client's key (65537 and the other exponents), resPQ offering each
+// of the three lists: the client's key is not among them, the exchange has to be given up.
+func c07GenNearMisses(g *G, r *Rand) {
+	for _, key := range c07Pool {
+		nm := c07NearMisses(key)
+		for _, kind := range c07NearMissKinds {
+			b := c07NewBase(r, key)
+			fps := append([]uint64{}, nm[kind]...)
+			for i := len(fps) - 1; i > 0; i-- {
+				j := r.Intn(i + 1)
+				fps[i], fps[j] = fps[j], fps[i]
+			}
+			b.emit(g, "resPQ.fingerprint:"+kind, b.offering(fps...), "resPQ", "field:fingerprints", "near-miss", fmt.Sprintf("near-miss:exponent-bytes=%d", len(big.NewInt(int64(key.E)).Bytes())))
+		}
+	}
 }
 
 func (b *c07Base) emit(g *G, tag string, r [3][]byte, tags ...string) {
@@ -214,9 +421,12 @@ func (b *c07Base) emit(g *G, tag string, r [3][]byte, tags ...string) {
 		}
 	}
 	g.Emit(c07Op(tag, &b.c.D, &b.c.S.Key.PublicKey, p, q, r), tags...)
-	consistent := false
+	consistent, rare := false, 12
 	for _, t := range tags {
 		consistent = consistent || t == "consistent"
+		if t == "zero-bytes-moved" || t == "near-miss" {
+			rare = 60 // (each client-side aftermath waits a second for frames; these classes are large)
+		}
 	}
 	if !consistent {
 		// the same fault, and the APPLICATION goes on with the object: for every class of fault (the part of the tag
@@ -231,7 +441,7 @@ func (b *c07Base) emit(g *G, tag string, r [3][]byte, tags ...string) {
 			mode = "req"
 		case n == 1:
 			mode = "retry"
-		case g.R.Intn(12) == 0:
+		case g.R.Intn(rare) == 0:
 			mode = []string{"req", "retry"}[g.R.Intn(2)]
 		}
 		if mode != "" {
@@ -300,7 +510,7 @@ func c07NextKey() *rsa.PrivateKey {
 // fingerprint of the key it is configured with NOW.
 func c07GenSequences(g *G, r *Rand) {
 	fp := func(k *rsa.PrivateKey) uint64 { return hsFingerprint(&k.PublicKey) }
-	for _, ko := range hsKeyObjModes {
+	for koIdx, ko := range hsKeyObjModes {
 		kA, kB := c07NextKey(), c07NextKey()
 		// honest with A; then configured with B, the server offers only A's fingerprint (refuse); then offers B's (accept)
 		a, b1, b2 := c07NewBase(r, kA), c07NewBase(r, kB), c07NewBase(r, kB)
@@ -315,6 +525,24 @@ func c07GenSequences(g *G, r *Rand) {
 		a, b1 = c07NewBase(r, kA), c07NewBase(r, kB)
 		a2, a3 := c07NewBase(r, kA), c07NewBase(r, kA)
 		g.Emit(c07SeqOp("seq:back-to-the-first-key", ko, []string{a.step(a.h.R), b1.step(b1.h.R), a2.step(a2.offering(fp(kB))), a3.step(a3.offering(r.U64(), fp(kA)))}), "sequence", "sequence:keyobj="+ko, "field:fingerprints")
+		// a client key with another public exponent than 65537: offered the fingerprints of the keys that differ from
+		// it in the exponent only (refuse), then its own among them (accept), then its own alone (accept)
+		{
+			var kE *rsa.PrivateKey
+			for i := range c07Pool {
+				if k := c07Pool[(koIdx+c07Turn+i)%len(c07Pool)]; k.E != 65537 {
+					kE = k
+					break
+				}
+			}
+			if kE != nil {
+				near := c07NearMisses(kE)["same-modulus-other-exponent"]
+				mid := len(near) / 2
+				with := append(append(append([]uint64{}, near[:mid]...), fp(kE)), near[mid:]...)
+				e1, e2, e3 := c07NewBase(r, kE), c07NewBase(r, kE), c07NewBase(r, kE)
+				g.Emit(c07SeqOp("seq:other-exponent-near-misses", ko, []string{e1.step(e1.offering(near...)), e2.step(e2.offering(with...)), e3.step(e3.offering(fp(kE)))}), "sequence", "sequence:keyobj="+ko, "field:fingerprints", "near-miss")
+			}
+		}
 		// the first exchange is abandoned (a fault late in it: the fingerprint has been looked for by then), the
 		// next one with another key is offered the abandoned exchange's key
 		kA, kB = c07NextKey(), c07NextKey()
@@ -327,13 +555,18 @@ func c07GenSequences(g *G, r *Rand) {
 
 func c07Gen(g *G) {
 	r := g.R
-	c07Pool = hsKeyPool(r, g.N(3, 4))
+	// ... followed by keys with other public exponents than 65537, one per byte length of the exponent (hsKeyPoolExp)
+	c07Pool = hsKeyPoolExp(r, g.N(3, 4), g.Thorough())
 	c07AfterCount = map[string]int{}
 	key := c07Pool[0]
 	c07GenSequences(g, r)
 	rounds := g.N(2, 32)
 	for round := 0; round < rounds; round++ {
 		c07GenRound(g, r, key, round)
+		c07GenZeroMoves(g, r)
+		if round < 2 || round%4 == 3 {
+			c07GenNearMisses(g, r)
+		}
 		if g.Thorough() && round%4 == 3 {
 			c07GenSequences(g, r)
 		}
@@ -751,8 +984,8 @@ func c07Judge(op []string, out string) string {
 		var bad []string
 		for i, c := range steps {
 			for _, b := range c07JudgeRun(c, runs[i], true) {
-				bad = append(bad, fmt.Sprintf("exchange %d of %d in this process (client configured with key %s…, fingerprint %016x, key object %s): %s",
-					i+1, len(steps), hexD(c.Pub.N.Bytes()[:4]), hsFingerprint(&c.Pub), keyobj, b))
+				bad = append(bad, fmt.Sprintf("exchange %d of %d in this process (client configured with key %s…, public exponent %d, fingerprint %016x, key object %s): %s",
+					i+1, len(steps), hexD(c.Pub.N.Bytes()[:4]), c.Pub.E, hsFingerprint(&c.Pub), keyobj, b))
 			}
 		}
 		return strings.Join(bad, "; ")
